@@ -3,7 +3,7 @@ Require Extraction.
 Require Import ExtrOcamlBasic.
 From Coq Require Import ZArith List Bool.
 From V Require Import base.Cal posix.PTime posix.RDelta posix.TzParseModel posix.TzRangeModel
-     posix.PosixSpec posix.IcalModel posix.TzLocalModel.
+     posix.PosixSpec posix.IcalModel posix.TzLocalModel posix.IcalConcModel.
 Import ListNotations.
 Open Scope Z_scope.
 
@@ -237,6 +237,29 @@ Definition ezones (v : list (list Z * list pcomp)) : list Z :=
 
 Definition eres_z (r : res Z) : list Z := match r with Ok v => [0; v] | Err e => [e] end.
 
+(* ---- interleaved lookups on one shared zone object ---- *)
+Fixpoint dtodos (n : nat) (a : list Z) : option (list (list key) * list Z) :=
+  match n with
+  | O => Some ([], a)
+  | S n' =>
+    match a with
+    | k :: t =>
+      let qs := pairs (firstn (2 * Z.to_nat k) t) in
+      match dtodos n' (skipn (2 * Z.to_nat k) t) with
+      | Some (r, rest) => Some (qs :: r, rest)
+      | None => None
+      end
+    | [] => None
+    end
+  end.
+Definition eout (o : list (key * res nat)) : list Z :=
+  Z.of_nat (length o) :: flat_map (fun '(_, a) => match a with Ok c => [0; Z.of_nat c] | Err e => [e; 0] end) o.
+Definition conc_run (cs : list comp) (todos : list (list key)) (sched : list Z) : list Z :=
+  let '(sh, ths) := run cs true (map Z.to_nat sched) (mkSh [] []) (map fresh todos) in
+  flat_map (fun th => eout th.(t_out)) ths ++
+  Z.of_nat (length sh.(sh_dates)) ::
+  flat_map (fun '(q, c) => [fst q; eb (snd q); Z.of_nat c]) (combine sh.(sh_dates) sh.(sh_comps)).
+
 (* ---- dispatch ---- *)
 Definition dispatch (n : Z) (args : list Z) : list Z :=
   match n with
@@ -315,6 +338,14 @@ Definition dispatch (n : Z) (args : list Z) : list Z :=
                       | None => [-9]
                       end
           | [] => [-9]
+          end
+  | 36 => match dcomplist args with
+          | Some (cs, n :: t) =>
+              match dtodos (Z.to_nat n) t with
+              | Some (todos, sched) => conc_run cs todos sched
+              | None => [-9]
+              end
+          | _ => [-9]
           end
   | 34 => match parse_offset args with Ok v => [0; v] | Err e => [e] end
   | 35 => (* get(tzid) after parse: args = has_tzid, tzid str, nlines, lines *)
